@@ -366,19 +366,27 @@ class APIClient:
 
     async def _execute_connection_coro(self, coro: Awaitable[None]) -> None:
         """Execute a coroutine and reset the _connection if it fails."""
+        connection = self._connection
         try:
             await coro
         except (Exception, asyncio.CancelledError):  # pylint: disable=broad-except
-            self._connection = None
+            if self._connection is connection:
+                self._connection = None
             raise
 
     async def disconnect(self, force: bool = False) -> None:
-        if self._connection is None:
+        connection = self._connection
+        if connection is None:
             return
         if force:
-            self._connection.force_disconnect()
+            connection.force_disconnect()
         else:
-            await self._connection.disconnect()
+            await connection.disconnect()
+        # A connection that never reached the connected state does not
+        # call on_stop when it is closed, so forget it here or every later
+        # start_connection would be refused as "Already connected"
+        if self._connection is connection:
+            self._connection = None
 
     def _get_connection(self) -> APIConnection:
         connection = self._connection
